@@ -518,6 +518,16 @@ class History:
             who = "only-rank" if g_id in rank_ids else "only-random"
             keys = self.keys_of(prov, g_id)
             R = keys[0] if keys else None
+            if len(keys) > 1:
+                # a generator whose return type was updated several times is listed under several keys: the one that makes the
+                # offering provider offer it is the one to explain (not an older key)
+                try:
+                    if who == "only-random":
+                        R = next((k for k in keys if fts.is_maybe_subtype(k, T)), R)
+                    else:
+                        R = next((k for k in keys if fts.subtype_distance(T, k) is not None), R)
+                except Exception:  # noqa: BLE001
+                    pass
             if rc == "primitive" and who == "only-random":
                 key = "provider-diff:only-random:primitive-requested"
                 t2, r2 = T, R
